@@ -971,6 +971,11 @@ CORPUS = [
     {'family': 'track', 'cwd': 'a/b', 'variant': 0, 'opts': [], 'shape': 'none', 'targets': []},
     {'family': 'track', 'cwd': 'a/b', 'variant': 0, 'opts': [], 'shape': 'dir/', 'targets': ['c/']},
     {'family': 'track', 'cwd': 'a', 'variant': 1, 'opts': [], 'shape': 'glob', 'targets': ['**/*.dat']},
+    # F30: -C <root> with a plain root-level file target, run from another process directory (the shortcut for plain file
+    # names stat'ed the bare name against the process working directory)
+    {'family': 'track', 'cwd': '.', 'variant': 0, 'opts': [], 'shape': 'file', 'targets': ['r1.txt']},
+    {'family': 'list', 'cwd': '.', 'variant': 0, 'opts': [], 'shape': 'file', 'targets': ['r2.dat']},
+    {'family': 'recheck', 'cwd': '.', 'variant': 0, 'opts': [], 'shape': 'file', 'targets': ['r1.txt']},
 ]
 
 KNOWN_REPLAYS = [
